@@ -21,6 +21,14 @@ CHECKS = {
    "Feeds the real Streaming decoder mutated/hostile byte streams under generated chunkings, trailers and injected body errors, keeps polling 8 times after the first End/Err, and judges prefix-validity of yielded messages, must-fail/must-not-fail and finality with a reference parser; poll budgets and a body that parks after 64 post-end polls turn hangs and busy loops into observations; panics are caught per case.",
    "Held on the executions produced; protobuf decodability is judged only for canonical encodings (prost may be stricter on others).",
    "runtime monitoring: mutation workload + reference-parser oracle + poll-budget/hang monitors", "DESIGN.md#c07"),
+ "C10": ("exploration",
+   "Registers random subsets and orders of 12 tonic-build-generated services with colliding names through every Routes construction path and drives the real Routes service with exact and mutated paths; the oracle is plain string equality on uri.path(), every handler logs its identity, and both registration orders must agree.",
+   "Held on the executions produced; HTTP/2 transport not involved in the quick tier (requests enter the Routes service directly).",
+   "runtime monitoring: exact-string dispatch model over handler identity log", "DESIGN.md#c10"),
+ "C12": ("exploration",
+   "Drives the real InterceptedService with generated http requests (all methods/versions, reserved/binary/repeated headers, extensions, token body) and interceptor actions; a capture service records what the wrapped service sees and a reference multimap transformer predicts it; rejections are decoded with the harness's own status codecs.",
+   "Held on the executions produced.",
+   "runtime monitoring: reference transformer model at the service boundary", "DESIGN.md#c12"),
 }
 
 NOT_YET = {}
